@@ -141,5 +141,7 @@ Involved(op) == {op.n} \cup (IF op.op \in {"createfrom", "copy"} THEN {op.m} ELS
 \* ---------------------------------------------------------------- the properties, as predicates on stores
 Intact(st) == \A n \in DOMAIN st.man : st.man[n].ok => BlobsOf(st.man[n]) \subseteq st.blobs
 Bystanders(pre, st, op) == \A n \in DOMAIN pre.man \ Involved(op) : n \in DOMAIN st.man /\ st.man[n] = pre.man[n]
-SameStore(a, b, noPrune) == a.man = b.man /\ (noPrune \/ a.blobs = b.blobs)
+\* the same manifests; the same blobs as well when startup pruning ran (it is skipped under OLLAMA_NOPRUNE and while a manifest
+\* does not parse: unreferenced blobs then stay until it runs again, and are not part of the comparison)
+SameStore(a, b, noPrune) == a.man = b.man /\ (noPrune \/ (\E n \in DOMAIN a.man : ~a.man[n].ok) \/ a.blobs = b.blobs)
 ===============================================================================
